@@ -99,7 +99,8 @@ func supervise(out string, n int, seed int64) int {
 	self, _ := os.Executable()
 	os.WriteFile(out, nil, 0o644)
 	from := 0
-	for from < n {
+	bad := 0 // programs that hung or killed the worker: each costs seconds, and a dozen is enough to report
+	for from < n && bad < 12 {
 		part := out + ".part"
 		os.Remove(part)
 		cmd := exec.Command(self, "-worker", "-out", part, "-n", fmt.Sprint(n), "-seed", fmt.Sprint(seed), "-from", fmt.Sprint(from))
@@ -175,6 +176,9 @@ func supervise(out string, n int, seed int64) int {
 			return 2
 		}
 		f.Close()
+		if code != 0 {
+			bad++
+		}
 		if done+1 <= from && code == 0 {
 			break
 		}
